@@ -484,7 +484,9 @@ func vRunHistory(t *testing.T, h int, next func(step int, st map[string]interfac
 			rec.Snap, rec.SnapAt = "direct replica panicked: "+dp, -1
 		} else {
 			dwant := d0.srv.VerifCanonLive()
-			if d := vSameOut(msgs, dm); d != "" && rec.Det == "" {
+			// the direct-path replica never goes through a snapshot round trip, so (only) stale
+			// services-link ids may differ in the recipient sets: compare what live sessions receive
+			if d := vSameOutLive(msgs, dm, d0.srv, preSess); d != "" && rec.Det == "" {
 				rec.Det = "direct-path replica: " + d
 			}
 			for _, x := range rs {
